@@ -1964,7 +1964,9 @@ class Filter(Blockwise):
                 # still move further
                 if is_filter_pushdown_available(
                     self, parent, dependents, allow_reduction=False
-                ):
+                ) and _depends_on(parent.predicate, self._name, {}):
+                    # A predicate that does not derive from self has the rows of
+                    # self, not those of self.frame
                     # We can only squash 2 filters together if the predicate of parent
                     # does not directly depend on self, e.g. if
                     # sum is in the predicate of parent, then removing self would
